@@ -82,6 +82,19 @@ class ErrPages:
         _http1.make_error_response = self.orig
 
 
+class StreamingWorld(World):
+    """server.py's server_event executes each command as the layer's generator yields it; if the layer raises
+    ("mitmproxy has crashed!") the commands yielded before are already done.  World._handle collects the whole list
+    first and would drop them, so the exception path is overridden here (same behaviour when nothing raises)."""
+    def _handle(self, event):
+        try:
+            for c in self.layer.handle_event(event):
+                self._command(c)
+        except Exception as e:
+            import traceback
+            self.errors.append((type(e).__name__, str(e), traceback.format_exc()))
+
+
 def may_have_body(flow, msg):
     if msg is flow.request:
         return True
@@ -154,7 +167,7 @@ def run(case, whole=False):
             if case["mode"] == "reverse":
                 ctx.client.proxy_mode = ProxyMode.parse("reverse:http://%s:%d" % ORIGIN)
         lay = http_layer.HttpLayer(ctx, mode)
-        w = World(lay, ctx, on_hook=on_hook)
+        w = StreamingWorld(lay, ctx, on_hook=on_hook)
         w.start()
 
         answered = {}          # label -> responses delivered (started) on that connection
